@@ -232,6 +232,9 @@ func zzOccurs(needle, hay string) bool {
 // is exactly "password" must not occur in Dbc. So that the substring test is meaningful
 // the password values are assumed not to occur in the rest of the connection string
 // (keys, separators, other tokens' values, the mask) to begin with.
+//
+// Value lengths: thorough tier — every token 1..3 independently; quick tier — at most one
+// token (rotated over all positions) is longer than 1 byte (2 or 3), the others 1 byte.
 func zzMask(name string, mk func() UdpPack, set func(UdpPack, string), get func(UdpPack) string, maxTok int) {
 	keys := [3]string{"password", "user", "host"}
 	nt := 1 + zzvf.Choose(maxTok)
@@ -242,18 +245,27 @@ func zzMask(name string, mk func() UdpPack, set func(UdpPack, string), get func(
 	var isPw [3]bool
 	var vals [3]string
 	npw := 0
+	long := -2 // thorough: all lengths independent
+	if !zzvf.Thorough() {
+		long = zzvf.Choose(nt+1) - 1
+	}
 	for i := 0; i < nt; i++ {
 		ki := zzvf.Choose(3)
 		isPw[i] = ki == 0
 		if isPw[i] {
 			npw++
 		}
-		n := 1 + zzvf.Choose(3)
+		n := 1
+		if long == -2 {
+			n = 1 + zzvf.Choose(3)
+		} else if long == i {
+			n = 2 + zzvf.Choose(2)
+		}
 		vals[i] = zzvf.String(n)
 		_ = keys[ki]
 		for j := 0; j < n; j++ {
 			c := vals[i][j]
-			zzvf.Assume(zzvf.And(c >= 'a', c <= 'z'))
+			zzvf.Assume(zzvf.Or(zzvf.And(c >= 'a', c <= 'z'), zzvf.And(c >= '0', c <= '9')))
 		}
 		vals[i] = keys[ki] + "=" + vals[i]
 	}
